@@ -254,6 +254,12 @@ def explore(env, depth, alpha):
                                                "n_modes_before": before[k][0][0] if before[k] and k != "S" else None,
                                                "n_modes_after": after[k][0][0] if after[k] and k != "S" else None})
                     break
+            if op[0] in ("copy", "freeze") and not rejected and after["C"][:4] != after[op[1]][:4]:
+                # the copy is the same circuit: observable state, ancilla bookkeeping and pass-through heralds (what later
+                # edits of the copy are resolved against) equal those of the original
+                names = ("observable", "internal_modes", "external_input_heralds", "external_output_heralds")
+                acc.violation("copy_differs_from_original", case,
+                              {"differs_in": [nm for nm, x, y in zip(names, after["C"], after[op[1]]) if x != y]})
             if op[0] == "bad" and not rejected and op[2] in ("bs_same", "bs_range", "loss_value", "ps_loss_value",
                                                              "swap_incomplete", "herald_range", "add_not_circuit",
                                                              "bs_conv", "herald_type", "add_negative"):
